@@ -77,123 +77,171 @@ class CursorAnalysis:
         problems = []
         sites = []
 
-        def off(n):
-            """If n designates cursor+const (p, &p[i], p + i): the offset."""
-            if n == P:
-                return 0
-            if n[0] == "&" and n[1][0] == "[]" and n[1][1] == P and n[1][2][0] == "c":
-                return n[1][2][1]
-            if n[0] == "+" and n[1] == P and n[2][0] == "c":
-                return n[2][1]
+        # secondary cursors: pointer variables that came in with an inlined helper (its locals, its parameters bound to fresh
+        # locals, the placeholder for its result -- sa/inline.py).  The state is the bound for P plus one bound per secondary
+        # cursor; without any (the pinned tree) it is the single number it always was.
+        sec = set()
+        for x in f.all_elems():
+            if x.cls == "DeclRefExpr" and x.decl and x.decl.get("kind") == "local" and isinstance(x.decl.get("id"), int) and x.decl["id"] >= 100000000 \
+                    and (f.unit.types.get(x.ty) or {}).get("kind") == "ptr":
+                sec.add(("v", x.decl["name"], x.decl["id"]))
+        CUR = {P} | sec
+
+        def getk(st, V):
+            if V == P:
+                return st[0]
+            for v, k in st[1]:
+                if v == V:
+                    return k
+            return NEGINF
+
+        def setk(st, V, k):
+            if V == P:
+                return (k, st[1])
+            return (st[0], frozenset([(v, x) for v, x in st[1] if v != V] + [(V, k)]))
+
+        def off2(n):
+            """(cursor variable, offset) when n designates cursor + const"""
+            while n[0] == "cast":
+                n = n[-1]
+            if n in CUR:
+                return n, 0
+            if n[0] == "&" and n[1][0] == "[]" and n[1][1] in CUR and n[1][2][0] == "c":
+                return n[1][1], n[1][2][1]
+            if n[0] == "+" and n[1] in CUR and n[2][0] == "c":
+                return n[1], n[2][1]
             return None
+
+        def off(n):
+            o = off2(n)
+            return o[1] if o is not None and o[0] == P else None
 
         def need(e, k, K, what):
             sites.append((e, k, K, what))
             if K < k:
                 problems.append((e, k, K, what))
 
-        def transfer(K, e):
-            # reads through the cursor
+        def transfer(st, e):
+            # reads through a cursor
             if e.cls == "ImplicitCastExpr" and e.op == "LValueToRValue":
                 n = norm(e.kid(0))
-                if n[0] == "[]" and n[1] == P and n[2][0] == "c":
-                    need(e, n[2][1] + 1, K, "read of %s[%d]" % (P[1], n[2][1]))
-                elif n[0] == "[]" and n[1] == P:
-                    need(e, 10 ** 5, K, "read of %s[%s] with a non-constant index" % (P[1], show(n[2])))
-                elif n[0] == "*" and n[1] == P:
-                    need(e, 1, K, "read of *%s" % P[1])
-                elif n[0] == "*" and n[1][0] == "upost++" and n[1][1] == P:
+                if n[0] == "[]" and n[1] in CUR and n[2][0] == "c":
+                    need(e, n[2][1] + 1, getk(st, n[1]), "read of %s[%d]" % (n[1][1], n[2][1]))
+                elif n[0] == "[]" and n[1] in CUR:
+                    need(e, 10 ** 5, getk(st, n[1]), "read of %s[%s] with a non-constant index" % (n[1][1], show(n[2])))
+                elif n[0] == "*" and n[1] in CUR:
+                    need(e, 1, getk(st, n[1]), "read of *%s" % n[1][1])
+                elif n[0] == "*" and n[1][0] == "upost++" and n[1][1] in CUR:
                     # the increment has already been applied to K when the load element is reached
-                    need(e, 0, K, "read of *%s++ (needs one byte before the increment)" % P[1])
-                return K
-            if e.is_incdec and norm(e.kid(0)) == P:
+                    need(e, 0, getk(st, n[1][1]), "read of *%s++ (needs one byte before the increment)" % n[1][1][1])
+                return st
+            if e.is_incdec and norm(e.kid(0)) in CUR:
+                V = norm(e.kid(0))
+                K = getk(st, V)
                 if e.op in ("post++", "pre++"):
-                    return K - 1 if K > NEGINF else K
-                return NEGINF
-            if e.is_assign and norm(e.kid(0)) == P:
+                    return setk(st, V, K - 1 if K > NEGINF else K)
+                return setk(st, V, NEGINF)
+            if e.is_assign and norm(e.kid(0)) in CUR:
+                V = norm(e.kid(0))
+                K = getk(st, V)
                 if e.op == "+=" and norm(e.kid(1))[0] == "c":
                     c = norm(e.kid(1))[1]
-                    need(e, c, K, "%s += %d" % (P[1], c))
-                    return K - c if K > NEGINF else K
+                    need(e, c, K, "%s += %d" % (V[1], c))
+                    return setk(st, V, K - c if K > NEGINF else K)
                 if e.op == "=":
                     r = e.kid(1).strip() if e.kid(1) is not None else None
                     if r is not None and r.cls == "CallExpr" and r.callee in self.funcs:
-                        return 0       # verified post-condition of the callee: result within [arg, end]
+                        return setk(st, V, 0)       # verified post-condition of the callee: result within [arg, end]
                     rn = norm(e.kid(1))
-                    o = off(rn)
+                    o = off2(rn)
                     if o is not None:
-                        return K - o if K > NEGINF else K
+                        kw = getk(st, o[0])
+                        return setk(st, V, kw - o[1] if kw > NEGINF else kw)
                     if rn == E:
-                        return 0
-                    return NEGINF
-                return NEGINF
+                        return setk(st, V, 0)
+                    if rn == ("c", 0) and V != P:
+                        # a helper's "no result": NULL is not a position; the paths that carry it are told apart by the
+                        # caller's test of the result, which this domain (one bound per variable) cannot do -- so NULL
+                        # constrains nothing here (dereferencing it is NULLCHK's business, not a question of bounds)
+                        return setk(st, V, 10 ** 4)
+                    return setk(st, V, NEGINF)
+                return setk(st, V, NEGINF)
             if e.cls == "CallExpr":
                 c = e.callee
                 if c in self.funcs:
                     g = self.funcs[c]
                     a = e.arg(g[3])
-                    o = off(norm(a)) if a is not None else None
+                    o = off2(norm(a)) if a is not None else None
                     lim_ok = e.arg(g[4]) is not None and norm(e.arg(g[4])) == E
                     if o is None or not lim_ok:
-                        if a is not None and any(t == P for t in subterms(norm(a))):
-                            need(e, 10 ** 5, K, "call %s with a cursor expression the analysis cannot bound" % c)
+                        if a is not None and any(t in CUR for t in subterms(norm(a))):
+                            need(e, 10 ** 5, st[0], "call %s with a cursor expression the analysis cannot bound" % c)
                     else:
-                        need(e, self.pre.get(c, 0) + o, K, "call %s needs end - %s >= %d" % (c, show(norm(a)), self.pre.get(c, 0)))
+                        need(e, self.pre.get(c, 0) + o[1], getk(st, o[0]), "call %s needs end - %s >= %d" % (c, show(norm(a)), self.pre.get(c, 0)))
                 elif c in ("memcmp", "memcpy", "memchr"):
                     for k in (0, 1):
                         a = e.arg(k)
-                        o = off(norm(a)) if a is not None else None
+                        o = off2(norm(a)) if a is not None else None
                         if o is not None:
                             ln = e.arg(2)
                             if ln is not None and ln.val is not None:
-                                need(e, o + ln.val, K, "%s reads %d bytes at %s" % (c, ln.val, show(norm(a))))
+                                need(e, o[1] + ln.val, getk(st, o[0]), "%s reads %d bytes at %s" % (c, ln.val, show(norm(a))))
                             else:
-                                need(e, 10 ** 5, K, "%s with a non-constant length at the cursor" % c)
+                                need(e, 10 ** 5, getk(st, o[0]), "%s with a non-constant length at the cursor" % c)
                 elif c is not None:
                     for a in e.args:
-                        if a is not None and off(norm(a)) is not None and c not in ("__builtin_expect",):
-                            need(e, 10 ** 5, K, "cursor passed to %s, whose reads are not bounded by `end`" % c)
-                return K
+                        if a is not None and off2(norm(a)) is not None and c not in ("__builtin_expect",):
+                            need(e, 10 ** 5, st[0], "cursor passed to %s, whose reads are not bounded by `end`" % c)
+                return st
             if e.cls == "ReturnStmt" and e.kids and e.kid(0) is not None:
                 r = e.kid(0).strip()
                 rn = norm(e.kid(0))
+                o = off2(rn)
                 if rn == E:
-                    sites.append((e, 0, K, "returns end"))
-                elif off(rn) is not None:
-                    need(e, off(rn), K, "returns %s, which must not be beyond end" % show(rn))
+                    sites.append((e, 0, st[0], "returns end"))
+                elif o is not None:
+                    need(e, o[1], getk(st, o[0]), "returns %s, which must not be beyond end" % show(rn))
                 elif r is not None and r.cls == "CallExpr" and r.callee in self.funcs:
-                    sites.append((e, 0, K, "returns the result of %s (within [arg, end])" % r.callee))
+                    sites.append((e, 0, st[0], "returns the result of %s (within [arg, end])" % r.callee))
                 elif (f.unit.types.get(f.ret) or {}).get("kind") == "ptr":
-                    need(e, 10 ** 5, K, "returns %s, which is not derived from the cursor or end" % show(rn))
-                return K
-            return K
+                    need(e, 10 ** 5, st[0], "returns %s, which is not derived from the cursor or end" % show(rn))
+                return st
+            return st
 
-        def refine(K, cond, kind):
+        def refine(st, cond, kind):
             if kind not in (True, False):
-                return K
+                return st
             for op, L, R, _, _ in cond_atoms(cond, kind):
-                if L == P and R == E:
-                    if op == "<":
-                        K = max(K, 1)
-                    elif op == "!=" and K >= 0:
-                        K = max(K, 1)
-                    elif op == "<=":
-                        K = max(K, 0)
-                if L == E and R == P:
-                    if op == ">":
-                        K = max(K, 1)
-                    elif op == "!=" and K >= 0:
-                        K = max(K, 1)
-                if L == ("-", E, P) and R[0] == "c":
-                    if op == ">=":
-                        K = max(K, R[1])
-                    elif op == ">":
-                        K = max(K, R[1] + 1)
-            return K
+                for V in CUR:
+                    K = getk(st, V)
+                    K0 = K
+                    if L == V and R == E:
+                        if op == "<":
+                            K = max(K, 1)
+                        elif op == "!=" and K >= 0:
+                            K = max(K, 1)
+                        elif op == "<=":
+                            K = max(K, 0)
+                    if L == E and R == V:
+                        if op == ">":
+                            K = max(K, 1)
+                        elif op == "!=" and K >= 0:
+                            K = max(K, 1)
+                    if L == ("-", E, V) and R[0] == "c":
+                        if op == ">=":
+                            K = max(K, R[1])
+                        elif op == ">":
+                            K = max(K, R[1] + 1)
+                    if K != K0:
+                        st = setk(st, V, K)
+            return st
 
         def widen(a, b):
-            m = min(a, b)
-            return NEGINF if m < -16 else m    # descending chains in loops: give up on the bound
+            m = min(a[0], b[0])
+            ka, kb = dict(a[1]), dict(b[1])
+            s2 = frozenset((v, (lambda x: NEGINF if x < -16 else x)(min(ka.get(v, NEGINF), kb.get(v, NEGINF)))) for v in set(ka) | set(kb))
+            return (NEGINF if m < -16 else m, s2)    # descending chains in loops: give up on the bound
+        entryK = (entryK, frozenset())
         s = Solver(f, entryK, transfer, refine, widen, limit=400).run()
         del problems[:]
         del sites[:]
